@@ -2,7 +2,7 @@
 reified function object and of the call as Coq terms (coq/Model/Pedantic.v), decoding of the model's
 answer (coq/Model/PedanticEval.v), correspondence (implementation vs model) and the three property
 judges (implementation vs the oracle of coq/Spec/PedanticSpec.v)."""
-import copy, json
+import copy, json, re
 from lib import *
 import universe as U
 import gen_checker as GC
@@ -221,7 +221,9 @@ POS_NAMES = [2, 3, 4, 5, 6]          # a b c d e
 KWO_NAMES = [11, 12, 13]             # k m n
 EXTRA_KW = [15, 16, 17]              # x y z
 DUNDER_EXEMPT = ['__call__', '__add__', '__getitem__', '__lt__']
-DUNDER_LISTED = ['__unicode__', '__nonzero__', '__oct__', '__hex__']
+DUNDER_LISTED = ['__unicode__', '__nonzero__', '__oct__', '__hex__']      # for methods: names CPython never calls implicitly
+ALL_LISTED = ['__new__', '__init__', '__str__', '__del__', '__int__', '__float__', '__complex__', '__oct__', '__hex__', '__index__',
+              '__trunc__', '__repr__', '__unicode__', '__hash__', '__nonzero__', '__dir__', '__sizeof__']
 TEXTS = ['comment_star', 'string_star', 'doc_star', 'doc_static', 'comment_static', 'doc_pedantic', 'comment_rk',
          'comment_setter', 'deco_at', 'between_at']
 
@@ -314,8 +316,8 @@ def gen_shape(rng, forced=None):
     kind = forced or ('func' if r < 0.40 else 'class_deco' if r < 0.65 else 'method_direct' if r < 0.80 else
                       'stacked' if r < 0.88 else 'require_kwargs' if r < 0.95 else 'property')
     if kind == 'func':
-        if rng.random() < 0.1:
-            c['name'] = rng.choice(DUNDER_EXEMPT + DUNDER_LISTED + ['__x', 'y__', '_'])
+        if rng.random() < 0.12:     # module-level functions may carry any name: the whole documented list, names outside it, near-dunders
+            c['name'] = rng.choice(DUNDER_EXEMPT + ALL_LISTED + ['__x', 'y__', '_', '__', '____', '__f__'])
     elif kind in ('class_deco', 'method_direct'):
         c['style'] = kind
         c['mkind'] = mk = rng.choice(['instance', 'instance', 'instance', 'static', 'class'])
@@ -418,6 +420,12 @@ def gen_case(rng, stream, forced=None):
 def mutate_near(rng, c, kind, positional_style):
     """one single-position corruption of a conforming call"""
     params = c['params']
+    if kind == 'property':      # obj.p = x: the one value there is
+        w = wrong(rng, params[0]['ann'], c['args'][0])
+        if w is not None:
+            c['args'] = [w]
+            c['mut'] = 'setter_value'
+        return
     opts = ['kwval', 'kwval', 'result', 'positional', 'positional', 'default', 'star', 'varkw', 'nonconf_default_passed']
     rng.shuffle(opts)
     for o in opts:
@@ -655,9 +663,17 @@ MATCHERS = {
     'setter_text_without_setter': lambda c, fn: fn['text']['setter'] and c['style'] != 'property',
     'varpos_not_spelled_args': lambda c, fn: has_varpos(fn) and not fn['text']['star_args'],
     'receiver_not_named_self': lambda c, fn: c['mkind'] == 'instance' and c['style'] != 'func' and fn['first_arg'] != 0,
-    'first_positional_stripped': lambda c, fn: len(c['args']) == 1 and not call_parts(c)[0] and strips_first(fn),
+    # the single positional value is stripped as if it were the receiver AND no required parameter is left unfilled
+    # (otherwise the implementation still raises 'Parameter ... is unfilled': coq/Props/C05.v C05_stripped_but_unfilled_partial)
+    'first_positional_stripped': lambda c, fn: len(c['args']) == 1 and not call_parts(c)[0] and strips_first(fn)
+                                               and (c['mode'] == 'require_kwargs' or
+                                                    all(p['default'] is not None or p['name'] in [k for k, _ in c['kwargs']]
+                                                        for p in fn['params'] if p['kind'] in ('pos', 'posonly', 'kwonly') and p['name'] != 0)),
     'classmethod_decorated_directly': lambda c, fn: c['style'] == 'method_direct' and c['mkind'] == 'class' and c['mode'] == 'pedantic',
     'receiver_checked_against_varargs': lambda c, fn: bool(call_parts(c)[0]) and has_varpos(fn),
+    # static / class methods are called with the keyword arguments only (_get_return_value): positional values for *args are lost
+    'star_elements_dropped_for_static_or_class_method': lambda c, fn: has_varpos(fn) and len(c['args']) > 0
+                                                                      and (fn['text']['staticmethod'] or fn['bound'] is not None),
     'throw_answered_by_generator': lambda c, fn: bool(c.get('gen')) and c.get('on_throw', 'propagate') != 'propagate'
                                                  and any(o[0] == 'throw' for o in c.get('ops', [])),
     'pedantic_text_in_method_of_pedantic_class': lambda c, fn: c['style'] == 'class_deco' and fn['text']['pedantic'],
@@ -676,6 +692,10 @@ def evaluate(ck, cases):
     """run implementation and model on the cases; returns list of (case, impl, decoded model or None)"""
     impl = ck.run_impl('w_pedantic', cases, timeout=900)
     idx = [k for k, i in enumerate(impl) if i and 'fn' in i]
+    # the model and the oracle evaluate the REIFIED values (what the rendered objects really are: {True: .., 1.0: ..} is one item)
+    for k in idx:
+        rf = impl[k].get('reified') or {}
+        cases[k] = dict(cases[k], **{key: rf[key] for key in ('args', 'kwargs', 'body', 'script', 'ops', 'on_throw') if key in rf})
     terms = [coq_term(cases[k], impl[k]['fn']) for k in idx]
     model = ck.coq_eval(PRE, terms) if ck.model_ok else [None] * len(terms)
     out = [(c, i, None) for c, i in zip(cases, impl)]
@@ -703,6 +723,70 @@ def lock_obligation(ck):
               ('changed since the model was validated: ' + ', '.join(diff)) if diff else f'{len(gen)} functions unchanged')
 
 
+def reductions(c):
+    """single-step structural reductions of a case (drop a parameter, a keyword, a positional value, simplify the return
+    annotation / the text / the generator script)"""
+    out = []
+    base = {k: v for k, v in c.items() if k != '_fn'}
+    for i, p in enumerate(base['params']):
+        d = copy.deepcopy(base)
+        d['params'].pop(i)
+        d['kwargs'] = [kv for kv in d['kwargs'] if kv[0] != p['name']]
+        if p['kind'] in ('pos', 'posonly') and d['args']:
+            lead = [q for q in base['params'] if q['kind'] in ('pos', 'posonly')]
+            j = lead.index(p)
+            if j < len(d['args']):
+                d['args'].pop(j)
+        out.append(d)
+    for i in range(len(base['kwargs'])):
+        d = copy.deepcopy(base); d['kwargs'].pop(i); out.append(d)
+    for i in range(len(base['args'])):
+        if base['style'] != 'property':
+            d = copy.deepcopy(base); d['args'].pop(i); out.append(d)
+    if base['text'] != 'none':
+        d = copy.deepcopy(base); d['text'] = 'none'; out.append(d)
+    if not base['gen'] and base['ret'] != ['cls', 'int'] and base['style'] != 'property':
+        d = copy.deepcopy(base); d['ret'] = ['cls', 'int']; d['body'] = ['ret', ['int', 1]]; out.append(d)
+    if base['gen']:
+        for i in range(len(base['script']) - 1):
+            d = copy.deepcopy(base); d['script'].pop(i); out.append(d)
+        for i in range(len(base['ops'])):
+            d = copy.deepcopy(base); d['ops'].pop(i); out.append(d)
+    for i, p in enumerate(base['params']):
+        if p['ann'] not in (None, ['cls', 'int']) and p['kind'] in ('pos', 'kwonly'):
+            d = copy.deepcopy(base)
+            d['params'][i]['ann'] = ['cls', 'int']
+            if d['params'][i]['default'] is not None:
+                d['params'][i]['default'] = ['int', 0]
+            d['kwargs'] = [[k, ['int', 1]] if k == p['name'] else [k, v] for k, v in d['kwargs']]
+            out.append(d)
+    return out
+
+
+def shrink_first(ck, judge, rounds=4):
+    """shrink the smallest violation that no known finding covers: structural replacement while the same failure persists"""
+    v = ck.violations[0]
+    klass = re.sub(r'\d+', 'N', v['what'])[:60]
+    best = v['case']
+    for _ in range(rounds):
+        cands = reductions(best)
+        if not cands:
+            break
+        res = evaluate(ck, cands)
+        ok = []
+        for c, i, m in res:
+            if i and m and 'fn' in i:
+                w = judge(c, i, m)
+                cc = dict(c, _fn=i['fn'])
+                if w and re.sub(r'\d+', 'N', w)[:60] == klass and not any(f['status'] == 'open' and matcher(f, cc) for f in ck.findings):
+                    ok.append((size_of(c), cc, w, i, m))
+        if not ok:
+            break
+        ok.sort(key=lambda t: t[0])
+        _, best, w, i, m = ok[0]
+        v.update({'case': best, 'what': w, 'impl': {k: x for k, x in i.items() if k != 'fn'}, 'model': m, 'shrunk': True})
+
+
 def run(pid, props, tier, seed, replay=None):
     ck = Check(pid, tier, seed, UNITS, MODEL, props)
     ck.prepare()
@@ -713,7 +797,7 @@ def run(pid, props, tier, seed, replay=None):
         (c, i, m), = evaluate(ck, [f['witness']])
         return bool(i and m and 'fn' in i and judge(c, i, m))
     ck.replay_known_findings(still_fails)
-    cases = gen_cases(ck.rng, tier, ck.scale()) if replay is None else [replay['case']]
+    cases = gen_cases(ck.rng, tier, ck.scale()) if (replay is None or 'case' not in replay) else [replay['case']]
     for c in cases:
         c.pop('_fn', None)
     results = evaluate(ck, cases)
@@ -751,6 +835,8 @@ def run(pid, props, tier, seed, replay=None):
         else:
             ck.traces_validated += 1
     ck.violations.sort(key=lambda v: size_of(v['case']))
+    if ck.violations and replay is None:
+        shrink_first(ck, judge)
     disagreements.sort(key=lambda d: size_of(d['case']))
     ck.oblige('correspondence:pedantic/sig-x-call', 'correspondence', not disagreements,
               json.dumps(disagreements[0], default=str)[:1500] if disagreements else f'{ck.traces_validated} calls agree')
